@@ -1057,15 +1057,27 @@ class _ProtocolGraphWalker:
         Args:
           wants: List of wanted object SHAs
         """
+        depth = None
         while True:
-            command, val = self.read_proto_line((COMMAND_DEEPEN, COMMAND_SHALLOW))
+            command, val = self.read_proto_line(
+                (COMMAND_DEEPEN, COMMAND_SHALLOW, None)
+            )
+            if command is None:
+                break
             if command == COMMAND_DEEPEN:
                 assert isinstance(val, int)
                 depth = val
+                self.read_proto_line((None,))  # consume client's flush-pkt
                 break
             assert isinstance(val, bytes)
             self.client_shallow.add(ObjectID(val))
-        self.read_proto_line((None,))  # consume client's flush-pkt
+
+        if depth is None:
+            # A shallow client fetching without deepening only tells us where
+            # its history ends: keep that boundary, and send no shallow-update
+            # section, which is the answer to a deepen request.
+            self.shallow.update(self.client_shallow)
+            return
 
         shallow, not_shallow = find_shallow(self.store, wants, depth)
 
